@@ -288,11 +288,16 @@ fn same_state(a: &PSysState, b: &PSysState) -> bool {
 }
 
 fn part_c(a: &Args, shared: &SharedReport, th: bool) {
-    let locals: Vec<PState> = vec![(0, vec![]), (0, vec![id(1)]), (1, vec![id(0), id(2)])];
+    // (states that point at each other, so that rewriting the ids inside them changes their relative order)
+    let locals: Vec<PState> = vec![(0, vec![]), (0, vec![id(1)]), (1, vec![id(0), id(2)]), (0, vec![id(0)]), (0, vec![id(2)])];
+    let nl = locals.len();
     let envs = [Envelope { src: id(0), dst: id(1), msg: (0u8, id(2)) }, Envelope { src: id(2), dst: id(0), msg: (1u8, id(1)) }];
     let mut idx = 0u64;
-    for code in 0..27usize {
-        let sts: Vec<PState> = (0..3).map(|i| locals[code / 3usize.pow(i as u32) % 3].clone()).collect();
+    for code in 0..nl.pow(3) {
+        let sts: Vec<PState> = (0..3).map(|i| locals[code / nl.pow(i as u32) % nl].clone()).collect();
+        if !th && code >= 27 && code % 2 == 1 {
+            continue;
+        }
         for netsub in 0..4usize {
             for kind in 0..3 {
                 idx += 1;
